@@ -196,6 +196,7 @@ func getExtendsBaseFromFile(
 		if err != nil {
 			return nil, nil, err
 		}
+		verifPhase(extendsOpts, "rebase")
 
 		return services, processor, nil
 	}
